@@ -72,6 +72,8 @@ REQUIRED_PROBES = {
         "block_without_tensor_leaf_run",
         "ddp_layout_run",
         "soap_run",
+        "frozen_param_run",
+        "ckpt_regrouped",
     ],
 }
 
@@ -132,9 +134,14 @@ def rewrap_for_load(disk_sd: dict, opt, params: list[torch.Tensor], nm: list[str
 class System:
     """One optimizer instance over its own copy of the parameters."""
 
-    def __init__(self, trace: dict, init: list[torch.Tensor] | None, dist_config=None) -> None:
+    def __init__(self, trace: dict, init: list[torch.Tensor] | None, dist_config=None, groups=None) -> None:
+        if groups is not None:
+            trace = {**trace, "groups": groups}
         self.trace = trace
         self.params = [spec.make_param(p).requires_grad_(True) for p in trace["params"]]
+        self.frozen = set(trace.get("frozen", []))
+        for i in self.frozen:
+            self.params[i].requires_grad_(False)  # a frozen parameter handed to the optimizer never receives a gradient
         if init is not None:
             with torch.no_grad():
                 for p, q in zip(self.params, init):
@@ -146,8 +153,8 @@ class System:
         if ev["op"] == "set_hparam":
             self.opt.param_groups[ev["group"]][ev["key"]] = ev["value"]
             return None
-        for p, ps, g in zip(self.params, self.trace["params"], ev["g"]):
-            p.grad = None if g is None else spec.make_grad(tuple(ps["shape"]), p.dtype, g[0], g[1], g[2])
+        for i, (p, ps, g) in enumerate(zip(self.params, self.trace["params"], ev["g"])):
+            p.grad = None if (g is None or i in self.frozen) else spec.make_grad(tuple(ps["shape"]), p.dtype, g[0], g[1], g[2])
         try:
             self.opt.step()
         except world.SimAbort:
@@ -329,6 +336,29 @@ def campaign(trace: dict, make_system, probes: Counter, yield_fn=None) -> Violat
         sd_disk, params_disk = disk[k]
         ctx = {**feats, "crash_point": k, "phase_at_crash": label, "T": T}
         # ---- storage faults (separate configuration): load must raise ------------------------------------------------------
+        if trace.get("ckpt_faults") and trace.get("layout", "serial") == "serial" and len(trace["groups"]) > 1 and rng.random() < 0.25:
+            # parameter groups that do not match: a non-first parameter moved to another group of the fresh optimizer
+            donors = [gi for gi, g in enumerate(trace["groups"]) if len(g["params"]) > 1]
+            if donors:
+                gi = donors[rng.randrange(len(donors))]
+                gj = (gi + 1) % len(trace["groups"])
+                groups2 = copy.deepcopy(trace["groups"])
+                moved = max(groups2[gi]["params"])
+                groups2[gi]["params"].remove(moved)
+                groups2[gj]["params"] = sorted(groups2[gj]["params"] + [moved])
+                Bm = make_system(params_disk, groups2)
+                probes["ckpt_fault_injected"] += 1
+                probes["ckpt_regrouped"] += 1
+                try:
+                    Bm.load(rewrap_for_load(sd_disk, Bm.opt, Bm.params, Bm.nm))
+                    raised = False
+                except world.SimAbort:
+                    raise
+                except Exception:  # noqa: BLE001
+                    raised = True
+                if not raised:
+                    return Violation(ID, "silent_resume_group_mismatch", k - 1, {**ctx, "fault": {"kind": "regrouped", "moved_param": moved, "from": gi, "to": gj}})
+                continue
         if trace.get("ckpt_faults") and rng.random() < 0.5:
             B = make_system(params_disk)
             # (content choices use their own stream: ranks hold different state dicts and must not desynchronise the
@@ -474,6 +504,17 @@ def generate(rng: random.Random, tier: str) -> dict:
             for g in ev["g"]:
                 if g is not None:
                     g[2] = rng.choice([1.0, 1.0, 0.1, 10.0])
+    if layout == "serial" and rng.random() < 0.15:
+        # a frozen (requires_grad=False) parameter, half of the time the first parameter of its group (which holds the
+        # group's step counter)
+        g_ = rng.choice(trace["groups"])
+        if len(g_["params"]) > 1 or len(trace["groups"]) > 1 or True:
+            fz = g_["params"][0] if rng.random() < 0.5 else rng.choice(g_["params"])
+            if any(pi != fz for gg in trace["groups"] for pi in gg["params"]):
+                trace["frozen"] = [fz]
+                for ev in trace["events"]:
+                    if ev["op"] == "step":
+                        ev["g"][fz] = None
     trace["tier"] = tier
     trace["campaign_seed"] = rng.randrange(1 << 30)
     trace["ckpt_faults"] = rng.random() < 0.4
@@ -492,8 +533,8 @@ def execute(trace: dict) -> Outcome:
         rank_probes = [Counter() for _ in range(w["size"])]
 
         def rank_main(rank: int, sim: world.Sim) -> None:
-            def mk(init):
-                return System(trace, init, worldrun._dist_config(trace, rank, sim, []))
+            def mk(init, groups=None):
+                return System(trace, init, worldrun._dist_config(trace, rank, sim, []), groups)
 
             results[rank] = campaign(trace, mk, rank_probes[rank], yield_fn=sim.yield_)
 
@@ -512,9 +553,11 @@ def execute(trace: dict) -> Outcome:
                 ctx["blocked"] = sim.deadlock_info
             v = Violation(ID, "deadlock" if sim.outcome == "deadlock" else "unexpected_exception", -1, ctx)
     else:
-        v = campaign(trace, lambda init: System(trace, init, None), probes)
+        v = campaign(trace, lambda init, groups=None: System(trace, init, None, groups), probes)
     if trace["config"]["preconditioner"]["kind"] == "soap":
         probes["soap_run"] += 1
+    if trace.get("frozen"):
+        probes["frozen_param_run"] += 1
     ph = set(phases_of(trace))
     feats = config_features(spec.effective_group_config(trace["config"], trace["groups"][0].get("overrides", {})), [p["dtype"] for p in trace["params"]])
     return Outcome(
